@@ -747,6 +747,9 @@ def read_with_includes(path, depth=0):
 
 def parse_template(path):
     lines = read_with_includes(path)
+    # only one module-level `broadcast use` is allowed: including templates extend the base one
+    extra = [re.match(r"\s*//@@ broadcast_extra (\S+)", l).group(1) for l in lines if re.match(r"\s*//@@ broadcast_extra ", l)]
+    lines = [l.replace("/*@@EXTRA_BROADCAST@@*/", "".join(", " + e for e in extra)) for l in lines if not re.match(r"\s*//@@ broadcast_extra ", l)]
     out = []   # list of ("text", str) | ("fn", dict) | ("type", dict)
     i = 0
     cur = None
